@@ -121,7 +121,12 @@ class Match(Generic[T]):
             attr_assignment = AttributeAssignment(
                 attr_name, self.variable, attr_assigned_value
             )
-            if isinstance(attr_assigned_value, Select):
+            if (
+                isinstance(attr_assigned_value, Select)
+                and not attr_assignment.is_an_unresolved_match
+            ):
+                # a nested select that is resolved below selects its own variable there: for a collection attribute
+                # that is the element the pattern matched, not the whole collection
                 self._update_selected_variables(attr_assignment.attr)
                 attr_assigned_value._var_ = attr_assignment.attr
             if attr_assignment.is_an_unresolved_match:
